@@ -3,6 +3,7 @@ package main
 import (
 	"encoding/json"
 	"fmt"
+	"sort"
 	"strconv"
 	"strings"
 
@@ -17,6 +18,10 @@ import (
 // "hang" and reported by the parent as violation class "hang"):
 //
 //   ket t <rf> <nq> <eps> <series>     the shared ketama op (ket.go); compared with the model
+//   o.reload <rf> <configA hex> <configB hex> <tenants>   oracle-only: a hashring file update that changes the
+//                                      overrides / the default shard size / a node / nothing, through the loader;
+//                                      every sub-ring the reloaded hashring hands out equals the one of the new
+//                                      configuration loaded on its own (stale-after-reload)
 //   o.load2 <algo> <rf> <confighex>    oracle-only: o.load, then the same configuration again with the same
 //                                      registerer (the sequence of a hashring file update)
 //   o.load <algo> <rf> <confighex>     oracle-only: receive.ParseConfig + receive.NewMultiHashring
@@ -115,6 +120,110 @@ func execC19(v *vctx, tok []string) string {
 			v.Violation("unexpected-error", "ring construction failed with "+k.status)
 		}
 		return k.answer
+	case "o.reload":
+		// o.reload <rf> <configA hex> <configB hex> <tenants `,` hex>: a hashring file update through the
+		// exported loader — A loaded and asked, B loaded with the same registerer while A is in use and asked,
+		// A closed, B asked again; every shuffle shard sub-ring B hands out must be the one B loaded on its own
+		// (fresh registerer) hands out.
+		if len(tok) != 5 {
+			return "bad-op"
+		}
+		rf, err := strconv.Atoi(tok[1])
+		rawA, err1 := hlib.UnHex(tok[2])
+		rawB, err2 := hlib.UnHex(tok[3])
+		if err != nil || err1 != nil || err2 != nil {
+			return "bad-op"
+		}
+		var tenants []string
+		for _, t := range hlib.Split(tok[4], ",") {
+			b, err := hlib.UnHex(t)
+			if err != nil {
+				return "bad-op"
+			}
+			tenants = append(tenants, string(b))
+		}
+		cfgA, errA := receive.ParseConfig(rawA)
+		cfgB, errB := receive.ParseConfig(rawB)
+		if errA != nil || errB != nil {
+			return "parse-error"
+		}
+		shards := func(h receive.Hashring, t string) string {
+			var out []string
+			for _, sub := range receive.VerifMultiParts(h) {
+				ss, ok := receive.VerifAsShuffleShard(sub)
+				if !ok {
+					continue
+				}
+				k, err := ss.TenantShardCached(t)
+				if err != nil {
+					out = append(out, strings.SplitN(classifyBuildErr(err), ":", 2)[0])
+					continue
+				}
+				es, _ := receive.VerifKetamaSections(k)
+				as := make([]string, len(es))
+				for i, e := range es {
+					as[i] = e.Address
+				}
+				sort.Strings(as)
+				out = append(out, strings.Join(as, ","))
+			}
+			return strings.Join(out, "|")
+		}
+		reg := prometheus.NewRegistry()
+		load := func(cfg []receive.HashringConfig, reg prometheus.Registerer) (h receive.Hashring, class string) {
+			defer func() {
+				if r := recover(); r != nil {
+					h, class = nil, "panic:"+fmt.Sprint(r)
+				}
+			}()
+			h, err := receive.NewMultiHashring(receive.AlgorithmKetama, uint64(rf), cfg, reg)
+			if err != nil {
+				return nil, classifyBuildErr(err)
+			}
+			return h, "ok"
+		}
+		hA, cl := load(cfgA, reg)
+		if hA == nil {
+			v.Count("reload:first-load:" + strings.SplitN(cl, ":", 2)[0])
+			return "first:" + strings.SplitN(cl, ":", 2)[0]
+		}
+		for _, t := range tenants {
+			shards(hA, t)
+		}
+		hB, cl := load(cfgB, reg)
+		if hB == nil {
+			hA.Close()
+			if strings.HasPrefix(cl, "panic") {
+				v.Violation("load-panic", "the second NewMultiHashring of a configuration update panics: "+cl)
+				return "reload-panic"
+			}
+			v.Count("reload:second-load:" + strings.SplitN(cl, ":", 2)[0])
+			return "second:" + strings.SplitN(cl, ":", 2)[0]
+		}
+		fresh, _ := load(cfgB, prometheus.NewRegistry())
+		check := func(when string) {
+			if fresh == nil {
+				return
+			}
+			for _, t := range tenants {
+				if got, want := shards(hB, t), shards(fresh, t); got != want {
+					v.Violation("stale-after-reload", fmt.Sprintf("tenant %q %s: the reloaded hashring hands out %s, the new configuration loaded on its own %s", t, when, got, want))
+					return
+				}
+			}
+		}
+		check("while the old hashring is in use")
+		hA.Close()
+		check("after the old hashring was closed")
+		hB.Close()
+		if fresh != nil {
+			fresh.Close()
+		}
+		if got := shardMetricNames(reg); len(got) != 0 {
+			v.Violation("metrics-leaked", fmt.Sprintf("everything closed, shuffle shard metrics still registered for %v", got))
+		}
+		v.Count("reload:history-ok")
+		return "ok"
 	case "o.load", "o.load2":
 		if len(tok) != 4 {
 			return "bad-op"
@@ -244,9 +353,17 @@ type cfgEndpoint struct {
 	AZ      string `json:"az,omitempty"`
 }
 
+type cfgOverride struct {
+	ShardSize int      `json:"shard_size"`
+	Tenants   []string `json:"tenants"`
+	Matcher   string   `json:"tenant_matcher_type,omitempty"`
+}
+
 type cfgShard struct {
-	ShardSize             int  `json:"shard_size"`
-	ZoneAwarenessDisabled bool `json:"zone_awareness_disabled,omitempty"`
+	ShardSize             int           `json:"shard_size"`
+	CacheSize             int           `json:"cache_size,omitempty"`
+	ZoneAwarenessDisabled bool          `json:"zone_awareness_disabled,omitempty"`
+	Overrides             []cfgOverride `json:"overrides,omitempty"`
 }
 
 type cfgRing struct {
@@ -362,6 +479,56 @@ func genC19(c *hlib.Ctx) {
 			op = "o.load"
 		}
 		c.Do(fmt.Sprintf("%s ketama 1 %s", op, hlib.Hex(b)), true)
+	}
+	// 2c. configuration updates that change something: overrides only / default shard size / a node / nothing
+	for i := 0; i < c.N(25, 250) && !gaveUp(); i++ {
+		l := ls[r.Intn(len(ls))]
+		for l.total() > 6 || l.total() < 2 {
+			l = ls[r.Intn(len(ls))]
+		}
+		eps := materialise(r, l, 0)
+		minZone := l.total()
+		for _, x := range l {
+			if x < minZone {
+				minZone = x
+			}
+		}
+		crA := cfgRing{Hashring: r.Pick([]string{"", "default"})}
+		for _, e := range eps {
+			crA.Endpoints = append(crA.Endpoints, cfgEndpoint{Address: e.addr, AZ: e.az})
+		}
+		maxS := minZone * len(l)
+		crA.Shard = &cfgShard{ShardSize: r.Range(1, maxS), CacheSize: []int{0, 1, 2, 50}[r.Intn(4)]}
+		tenants := []string{"tenant-1", "big-tenant", "special", "a"}
+		if r.Bool() {
+			crA.Shard.Overrides = append(crA.Shard.Overrides, cfgOverride{ShardSize: r.Range(1, maxS), Tenants: []string{r.Pick(tenants)}, Matcher: r.Pick([]string{"exact", ""})})
+		}
+		crB := crA
+		shB := *crA.Shard
+		shB.Overrides = append([]cfgOverride(nil), crA.Shard.Overrides...)
+		crB.Shard = &shB
+		kind := r.Pick([]string{"overrides", "overrides", "default", "nodes", "none"})
+		switch kind {
+		case "overrides":
+			if len(shB.Overrides) > 0 && r.Bool() {
+				shB.Overrides = nil
+			} else {
+				shB.Overrides = append([]cfgOverride{{ShardSize: r.Range(1, maxS), Tenants: []string{r.Pick([]string{"big-*", "tenant-?", "*"})}, Matcher: "glob"}}, shB.Overrides...)
+			}
+		case "default":
+			shB.ShardSize = 1 + shB.ShardSize%maxS
+		case "nodes":
+			crB.Endpoints = append([]cfgEndpoint(nil), crA.Endpoints...)
+			crB.Endpoints[r.Intn(len(crB.Endpoints))].Address = fmt.Sprintf("replacement-%d:10901", r.Intn(1000))
+		}
+		ba, _ := json.Marshal([]cfgRing{crA})
+		bb, _ := json.Marshal([]cfgRing{crB})
+		ts := make([]string, len(tenants))
+		for k, t := range tenants {
+			ts[k] = hlib.HexS(t)
+		}
+		c.Count("reload-gen:update:" + kind)
+		c.Do(fmt.Sprintf("o.reload 1 %s %s %s", hlib.Hex(ba), hlib.Hex(bb), strings.Join(ts, ",")), true)
 	}
 	// 3. malformed stream: duplicate addresses (hash ties), rf 0, no endpoints, junk JSON
 	for i := 0; i < c.N(20, 200) && !gaveUp(); i++ {
